@@ -777,6 +777,9 @@ fn passwords(ctx: &mut Ctx) -> Vec<Vec<u8>> {
         long,
         "пароль-密码".as_bytes().to_vec(),
         crate::gen::random_bytes(&mut ctx.rng, 17),
+        // longer than the smallest iterated-S2K octet counts (1024, 1088): salt ‖ password is then
+        // hashed once in full, so passwords that agree on a long prefix still differ
+        (0..1100u32).map(|i| (i as u8).wrapping_mul(11).wrapping_add(3)).collect(),
     ]
 }
 
